@@ -232,6 +232,18 @@ class Arr(object):
     def __mod__(self, o):
         return ew2("mod", self, o)
 
+    def __rfloordiv__(self, o):
+        return ew2("floordiv", o, self)
+
+    def __rmod__(self, o):
+        return ew2("mod", o, self)
+
+    def __rand__(self, o):
+        return ew2("and", o, self)
+
+    def __ror__(self, o):
+        return ew2("or", o, self)
+
     def __pow__(self, o):
         return ew2("pow", self, o)
 
